@@ -17,6 +17,12 @@ fn main() {
     let mode = args.get(2).cloned().unwrap_or_else(|| "quick".into());
     let code = match (id.as_str(), mode.as_str()) {
         ("validate-shapes", _) => c04::validate_shapes(),
+        ("trace-c04", i) => {
+            // dev helper: run history <i> of the current seed once (PROCSIM_TRACE_DUMP=<file> records every gate)
+            let sc = c04::gen_scenario(simcore::rng::mix(simcore::rng::verif_seed(), "C04", i.parse().unwrap_or(0)));
+            println!("{:?}", c04::run_plain(&sc));
+            0
+        }
         ("C04", "--replay") => c04::replay(&args[3]),
         ("C04", tier) => c04::check(tier),
         ("C24", "--replay") => c24::replay(&args[3]),
